@@ -19,12 +19,18 @@ CHECKS = [
  ("C05", "fault_enumeration", "round-trip property testing around write-path thresholds + generated <=32-bit corruption bursts located with an independent blob parser",
   "Round trip: generated histories with value lengths centred on the 4 KiB single-pass and 80 KiB background-I/O thresholds (relative to header+meta size), three fill kinds, 7 metadata shapes, compared byte-for-byte through read/read_with/Entry::load/load_data/load_meta in every index state and both runtime flavours, plus an enumerated sweep of lengths 0..8300. Corruption: a stored record's data region is XOR-ed with a <=32-bit burst (storage open, or closed and reopened with/without indexes, validation on/off, quarantine/ignore); every query needing the altered bytes must fail or the blob must have been dropped by a validating init; all other queries must equal the model.",
   "CRC32C detects every burst of <=32 bits, so 'must be Err' has no probabilistic slack. Only data bytes are altered (the statement's domain); header/meta damage belongs to C06/C16."),
+ ("C07", "exploration", "history invariant over byte snapshots of every blob file + append-only rules over the I/O tap trace",
+  "Histories over all public calls, restarts with index damage and crash-restarts with harness-made blob damage that forces quarantine. After every step every *.blob (work dir and corrupted dir) is compared byte-wise with its previous snapshot (prefix-monotone, or moved intact to the corrupted dir and immutable there), new blob ids must never have been used in either directory, and the tap trace must show only append-position writes to blobs, no truncate/remove/foreign rename of a blob, and no mutation event at all while a batch of every query kind runs at idle.",
+  "Blob damage injected by the harness re-baselines the snapshot. Crash copies and I/O failpoints are exercised by C06/C11 with their own no-harm clauses."),
  ("C09", "exploration", "differential property testing of the index through a probe hook (in-memory vs on-disk vs sorted-list model) + enumerated shape sweep",
   "Generated header multisets (11 key lengths, fan-out 5..454, runs around block boundaries, ties, markers) are pushed into the real index, dumped, loaded back and reopened; every lookup kind for present and absent keys is compared in all four stages with an independent sorted-list model. Enumerated sweep of key counts around powers of the fan-out per key length.",
   "Uses the H5 IndexProbe hook (thin wrapper, no logic). Up to 3000 keys / 6000 headers per case; for >300 keys a spread subset of keys plus leaf-boundary keys is queried in the quick tier."),
  ("C10", "exploration", "property testing of filter units and storage-level filter answers against key-set membership",
   "Bloom/Range/Combined filters: generated configs (odd bit counts, 0-5 hashers, zero sizes) and key sets; no added key is ever denied in memory, after serialization, probed from file bytes (answers must equal in-memory answers for all probes), off-loaded, merged. HierarchicalFilters under push/pop/remove/offload/reload scripts with group sizes 2-9: every key of every present child stays reachable. Storage level: check_filters/check_filter never deny a stored key across offload/restore/delete-in-closed/restart histories.",
   "False positives are never flagged. The file-probe test uses a BloomDataProvider over serialized bytes at a generated offset (the same interface the index implements)."),
+ ("C12", "exploration", "trace property: four ordering rules evaluated on the generated write/sync event trace (I/O tap)",
+  "Generated histories with dirty-byte limits {0,1,100,4096,1MiB,default}, value sizes around the write-path thresholds and concurrent write bursts run under the I/O tap with payload capture; the ordered trace must satisfy: blob header synced before the first record, index marked complete only after the blob bytes it describes were synced, explicit fsyncdata / close of the active blob / close leave no un-synced byte of that blob, and at every idle point the active blob's un-synced bytes are within the limit.",
+  "A write counts as covered by a sync only if its end event precedes the sync's begin event. 'Eventually' is judged at quiescence (H3 probe)."),
  ("C15", "exploration", "model-based property testing of accounting values",
   "records_count*, blobs_count, next_blob_id, corrupted_blobs_count compared with the model after every step of generated histories (restore, delete into closed blobs, forced switches, restarts); disk_used compared with the directory listing at every idle point.",
   "The id printed for the active entry of records_count_detailed is not asserted (only its count). disk_used is compared only at idle points (no dump in flight)."),
